@@ -245,49 +245,48 @@ def hex2 (n : Nat) : List Char := [hexDigit (n / 16), hexDigit (n % 16)]
 def fromRgb (r g b : Nat) : Color :=
   { name := '#' :: (hex2 r ++ hex2 g ++ hex2 b), type := .truecolor, triplet := some ⟨r, g, b⟩ }
 
+/-- The sub-parser of 38 / 48 (ansi.py:166-179): what `next(iter_codes)` … read.  `none`: the iterator
+ran dry (`StopIteration`, suppressed; the `for` loop then ends too).  Otherwise the colour read (if the
+colour type was 5 or 2) and the number of codes consumed. -/
+def extColor : List Nat → Option (Option Color × Nat)
+  | [] => none
+  | ct :: r1 =>
+    if ct = 5 then
+      match r1 with
+      | [] => none
+      | n :: _ => some (some (fromAnsi n), 2)
+    else if ct = 2 then
+      match r1 with
+      | a :: b :: c :: _ => some (some (fromRgb a b c), 4)
+      | _ => none
+    else some (none, 1)
+
 /-- The `for code in iter_codes` loop (ansi.py:157-196).  The sub-parsers of 38 / 48 pull further codes
-from the same iterator; `StopIteration` is suppressed and then the exhausted iterator ends the loop.
+from the same iterator: the third argument counts codes already consumed that way.
 Returns the style reached and the exception, if one was raised. -/
-def applyCodes (cfg : Cfg) : Style → List Nat → Style × Option DecErr
-  | st, [] => (st, none)
-  | st, code :: r =>
-    if code = 0 then applyCodes cfg Style.null r
+def applyCodes (cfg : Cfg) : Style → List Nat → Nat → Style × Option DecErr
+  | st, [], _ => (st, none)
+  | st, _ :: r, k + 1 => applyCodes cfg st r k
+  | st, code :: r, 0 =>
+    if code = 0 then applyCodes cfg Style.null r 0
     else
       match sgrLookup code with
       | some d =>
         match Style.parse cfg.sv d with
-        | .ok s => applyCodes cfg (Style.add cfg.sv st s) r
+        | .ok s => applyCodes cfg (Style.add cfg.sv st s) r 0
         | .error e => (st, some (.style e))
       | none =>
         if code = 38 then
-          match r with
-          | [] => (st, none)
-          | ct :: r1 =>
-            if ct = 5 then
-              match r1 with
-              | [] => (st, none)
-              | n :: r2 => applyCodes cfg (Style.add cfg.sv st (Style.fromColor cfg.sv (some (fromAnsi n)) none)) r2
-            else if ct = 2 then
-              match r1 with
-              | a :: b :: c :: r2 =>
-                applyCodes cfg (Style.add cfg.sv st (Style.fromColor cfg.sv (some (fromRgb a b c)) none)) r2
-              | _ => (st, none)
-            else applyCodes cfg st r1
+          match extColor r with
+          | none => (st, none)
+          | some (some c, n) => applyCodes cfg (Style.add cfg.sv st (Style.fromColor cfg.sv (some c) none)) r n
+          | some (none, n) => applyCodes cfg st r n
         else if code = 48 then
-          match r with
-          | [] => (st, none)
-          | ct :: r1 =>
-            if ct = 5 then
-              match r1 with
-              | [] => (st, none)
-              | n :: r2 => applyCodes cfg (Style.add cfg.sv st (Style.fromColor cfg.sv none (some (fromAnsi n)))) r2
-            else if ct = 2 then
-              match r1 with
-              | a :: b :: c :: r2 =>
-                applyCodes cfg (Style.add cfg.sv st (Style.fromColor cfg.sv none (some (fromRgb a b c)))) r2
-              | _ => (st, none)
-            else applyCodes cfg st r1
-        else applyCodes cfg st r
+          match extColor r with
+          | none => (st, none)
+          | some (some c, n) => applyCodes cfg (Style.add cfg.sv st (Style.fromColor cfg.sv none (some c))) r n
+          | some (none, n) => applyCodes cfg st r n
+        else applyCodes cfg st r 0
 
 /-- What one `text.append(plain_text, self.style or None)` adds: the stripped characters and the span's
 style (`none` = no span). -/
@@ -319,7 +318,7 @@ def decodeTok (cfg : Cfg) (st : Style) : Token → Style × Option Run × Option
       match sgrCodes cfg s with
       | .error e => (st, none, some e)
       | .ok codes =>
-        let r := applyCodes cfg st codes
+        let r := applyCodes cfg st codes 0
         (r.1, none, r.2)
 
 /-- The token loop: final `self.style` and the runs of the returned `Text`, or the exception. -/
@@ -422,15 +421,20 @@ def colorCodes (c : Color) (foreground : Bool) : Except EncErr (List (List Char)
     | .error e => .error (.color e)
     | .ok ns => .ok (ns.map natStr)
 
+/-- `if self._color is not None: sgr.extend(self._color.downgrade(color_system).get_ansi_codes(…))` -/
+def optColorCodes : Option Color → Bool → Except EncErr (List (List Char))
+  | none, _ => .ok []
+  | some c, fg => colorCodes c fg
+
 /-- `Style._make_ansi_codes(ColorSystem.TRUECOLOR)` on an empty `_ansi` cache. -/
 def makeAnsiCodes (s : Style) : Except EncErr (List Char) :=
   match attrCodes (s.attributes &&& s.setAttributes) with
   | .error e => .error e
   | .ok a =>
-    match (match s.color with | none => (.ok [] : Except EncErr (List (List Char))) | some c => colorCodes c true) with
+    match optColorCodes s.color true with
     | .error e => .error e
     | .ok f =>
-      match (match s.bgcolor with | none => (.ok [] : Except EncErr (List (List Char))) | some c => colorCodes c false) with
+      match optColorCodes s.bgcolor false with
       | .error e => .error e
       | .ok b => .ok (joinWith ';' (a ++ f ++ b))
 
